@@ -26,8 +26,10 @@ remote listing (kinds, contents, executable bits, link targets) minus the
 marker, `.bzrignore-upload` and ignored paths must equal the revision tree
 minus the same; an upload that raises is a violation.  Ignored remote paths
 must be what they were before.  Violations are classified from the concrete
-delta into the families listed in FAMILIES (candidate finding DESIGN §7-F13 and
-the others found while building the check); anything else has family None.
+delta into the known-finding families listed in FAMILIES; anything else has
+family None - in particular DESIGN §7-F13 (nested renames) and the three symlink
+defects fixed by commit d95ca85 are plain violations if they return ("fix
+reverted" mutant checked).
 
 Mutants this was built against (scratch worktree with the proposed fixes
 applied, so that the open families do not mask them); every one is caught with
@@ -58,7 +60,7 @@ from vlib import env
 THEOREMS = [
     "moves_sequential_eq_simultaneous", "rename_exec_independent", "upload_renames_reach_tree_partial",
     "nested_rename_witness", "nested_rename_second_witness", "children_first_fixes_witnesses",
-    "rename_into_new_dir_witness", "symlink_families_witness", "renamed_as_file_witness",
+    "reach_core", "rename_into_new_dir_witness", "symlink_families_witness", "renamed_as_file_witness",
     "full_upload_keeps_stale_witness", "ignored_rename_boundary_witness", "ignored_never_addressed",
 ]
 RULE = ("case = one upload: (remote listing before, tree delta the uploader computes, new tree, ignore list, mode "
